@@ -25,7 +25,7 @@ func init() {
 		NeedsBinary:       true,
 		MinNonTrivial:     100,
 		MinEffectiveShare: 0.4,
-		RequiredEvents: map[string]int64{"binary_runs": 400, "stdout_bytes_compared": 50000, "outfile_compared": 50, "error_exit_cases": 30, "list_invocations": 200, "diff_invocations": 80,
+		RequiredEvents: map[string]int64{"binary_runs": 400, "stdout_bytes_compared": 50000, "outfile_compared": 50, "outfile_preexisting": 20, "error_exit_cases": 30, "list_invocations": 200, "diff_invocations": 80,
 			"flag_exposure": 30, "flag_focusworkload": 30, "flag_fail": 30, "infos_vs_dirpath_compared": 100},
 	})
 }
@@ -82,6 +82,10 @@ func runC18(c *run.Ctx) {
 	outFile := ""
 	if g.P(0.35) {
 		outFile = filepath.Join(c.Dir("out"), "result.out")
+		if g.P(0.5) { // the file may exist already, with more bytes than the new report
+			_ = os.WriteFile(outFile, []byte(strings.Repeat("stale content of an earlier run\n", 4000)), 0o644)
+			r.Ev("outfile_preexisting", 1)
+		}
 	}
 	if !isDiff {
 		r.Ev("list_invocations", 1)
